@@ -24,7 +24,7 @@ var c13Targets = []TyJ{
 }
 
 func c13Decorate(r *rand.Rand, in *DataInput) {
-	in.ReplaceLevel = pick(r, []string{"root", "package", "interface", "entry"})
+	in.ReplaceLevel = pick(r, []string{"root", "package", "interface", "entry", "parent"})
 	// make sure replaceable top-level named types occur: force some parameters / results
 	srcs := []TyJ{
 		{K: "named", Pkg: pkgHTTP1, PkgName: "http", Name: "Request"},
